@@ -87,6 +87,7 @@ struct RuntimeFunctionIndices {
     math_log: u32,
     math_min: u32,
     math_max: u32,
+    math_fmod: u32,
     // Builtin function imports (from "builtin" module)
     builtin_probeln: u32,
     builtin_probe: u32,
@@ -633,6 +634,7 @@ impl WasmGenerator {
         self.rt.math_pow = self.add_import_from("math", "pow", type_idx_f64_f64_f64);
         self.rt.math_min = self.add_import_from("math", "min", type_idx_f64_f64_f64);
         self.rt.math_max = self.add_import_from("math", "max", type_idx_f64_f64_f64);
+        self.rt.math_fmod = self.add_import_from("math", "fmod", type_idx_f64_f64_f64);
     }
 
     /// Setup builtin function imports (probeln, probe, len, split_head, split_tail)
@@ -2373,15 +2375,11 @@ impl WasmGenerator {
                 func.instruction(&W::Call(self.rt.math_pow));
             }
             I::ModF(a, b) => {
-                // WASM has no native f64 remainder; compute a - trunc(a/b) * b
-                self.emit_value_load_typed(a, ValType::F64, func);
+                // WASM has no native f64 remainder, and a - trunc(a/b) * b is not the exact
+                // remainder the VM computes (rounding, infinite divisor): call the host's fmod.
                 self.emit_value_load_typed(a, ValType::F64, func);
                 self.emit_value_load_typed(b, ValType::F64, func);
-                func.instruction(&W::F64Div);
-                func.instruction(&W::F64Trunc);
-                self.emit_value_load_typed(b, ValType::F64, func);
-                func.instruction(&W::F64Mul);
-                func.instruction(&W::F64Sub);
+                func.instruction(&W::Call(self.rt.math_fmod));
             }
 
             // Integer arithmetic operations
